@@ -6,7 +6,7 @@ func init() {
 	register(propSpec{
 		ID: "C08", Level: "exploration",
 		Pkgs:    []pkgSpec{{Dir: "sdk/go/arvados"}},
-		Batches: 10, BatchesT: 16, Timeout: 10 * time.Minute, TimeoutT: 90 * time.Minute,
+		Batches: 12, BatchesT: 16, Timeout: 5 * time.Minute, TimeoutT: 90 * time.Minute,
 		MinEvals: 50000,
 		Rule: "case = (maxBlockSize in {1,2,3,5,8,16,64}, concurrent writers, background PutB parked on the wire or not, initial state empty | generated non-normalized manifest) " +
 			"+ a sequence of 50-400 operations generated against the current model state: OpenFile with every flag combination, Write, Read, Seek, Truncate, Stat, Mkdir, Remove(All), Rename, Readdir, Flush, MarshalManifest, Sync, " +
